@@ -38,6 +38,14 @@ def build_nodes(cfg, log=True, use_callback=True, dist_override=None) -> Dict[st
     for c in cfg["conns"]:
         tag += 1
         dist = GridDist.create(c["cdist"], tag=tag)
+        if "train" in c:  # trainable (zero-order-hold) communication delay, C10
+            from rex.base import TrainableDist
+            tr = c["train"]
+            dist = TrainableDist.create(delay=tr.get("d0", tr["min"]) / GRID, min=tr["min"] / GRID, max=tr["max"] / GRID)
+            if "d_init" in tr:  # the delay is set through init_delays (any value: saturates at the bounds)
+                nodes[c["in"]].delays_override[c.get("name", c["out"])] = tr["d_init"] / GRID
+            if tr.get("from_params"):
+                nodes[c["in"]].delay_from_params.append(c.get("name", c["out"]))
         nodes[c["in"]].connect(
             nodes[c["out"]],
             blocking=bool(c["blocking"]),
